@@ -691,3 +691,16 @@ Definition times_of (s d : Z) : list Z := map (fun k => s + Z.of_nat k) (seq 0 (
 Definition coveringb (sl : Z -> Z -> list Z) (key : Z -> Z) (e : expr) : bool :=
   forallb (fun sd => forallb (fun tau => memZ (key tau) (sl (fst sd) (snd sd))) (times_of (fst sd) (snd sd)))
           (leaf_spans e).
+
+(* Min at the level of the read-back: of the members of a Min that contain Choose leaves, either none
+   or every one has a placement (judged against the ORIGINAL tree, whatever the lowering did to it) *)
+Definition has_placement (pls : list placement) (e : expr) : bool :=
+  existsb (fun pl => memZ (pl_name pl) (choose_ids e)) pls.
+Definition min_node_okb (pls : list placement) (e : expr) : bool :=
+  match e with
+  | Min n ks =>
+      let ms := filter (fun k => match choose_ids k with [] => false | _ => true end) ks in
+      forallb (has_placement pls) ms || negb (existsb (has_placement pls) ms)
+  | _ => true
+  end.
+Definition min_okb (e : expr) (pls : list placement) : bool := forallb (min_node_okb pls) (subs e).
